@@ -4,11 +4,13 @@
 //! (/repo after fix-c16-1 `FieldKeys::new`, fix-c16-2 `AtIndex::writer`, fix-c16-3 `track_field`.)
 //!
 //! Store shapes come from one fixed family of `#[derive(Store, Patch)]` types:
-//!   Root { a: u32, mid: Mid, opt: Option<Leaf>, list: Vec<Leaf>, #[store(key: u32 = |r| r.id)] rows: Vec<Row> }
-//!   Mid  { x: u32, inner: Leaf, #[store(key: u32 = |r| r.id)] rows: Vec<Row> }
+//!   Root { a: u32, mid: Mid, opt: Option<Leaf>, list: Vec<Leaf>, #[store(key: u32 = |r| r.id)] rows: Vec<Row>,
+//!          #[patch(|this, new| *this = new)] boxed: Box<Leaf> }
+//!   Mid  { x: u32, inner: Leaf, #[store(key: u32 = |r| r.id)] rows: Vec<Row>, opt: Option<Leaf> }
 //!   Leaf { v: u32, w: u32 }          Row { id: u32, label: u32, sub: Leaf }
 //!
-//! Values (no spaces): leaf `7`, struct `{a,b}`, `Option` `~` / `?x`, `Vec` `[a,b]`, keyed `Vec` `<a,b>`.
+//! Values (no spaces): leaf `7`, struct `{a,b}`, `Option` `~` / `?x`, `Vec` `[a,b]`, keyed `Vec` `<a,b>`,
+//! `Box<Leaf>` `(a,b)` (accessed through `DerefedField`, which adds no path segment).
 //! Accessor chains: `-` (the store itself) or `.`-separated `f<i>` (struct field / `unwrap()` = f0),
 //! `i<n>` (`at_unkeyed(n)`), `k<i>` (keyed field), `@<key>` (`AtKeyed`).
 //!
@@ -61,6 +63,7 @@ pub struct Mid {
     inner: Leaf,
     #[store(key: u32 = |r| r.id)]
     rows: Vec<Row>,
+    opt: Option<Leaf>,
 }
 #[derive(Store, Patch, Clone, Debug, Default, PartialEq)]
 pub struct Root {
@@ -70,6 +73,9 @@ pub struct Root {
     list: Vec<Leaf>,
     #[store(key: u32 = |r| r.id)]
     rows: Vec<Row>,
+    /// read through `DerefedField` (`.deref_field()`), patched as a whole by its parent
+    #[patch(|this, new| *this = new)]
+    boxed: Box<Leaf>,
 }
 
 // ---------------------------------------------------------------- generic values
@@ -80,6 +86,7 @@ enum Tag {
     Opt,
     Vec,
     KVec,
+    Atom,
 }
 #[derive(Clone, Debug, PartialEq, Eq)]
 enum V {
@@ -98,6 +105,7 @@ fn show(v: &V) -> String {
             let (o, c) = match t {
                 Tag::Struct => ('{', '}'),
                 Tag::Vec => ('[', ']'),
+                Tag::Atom => ('(', ')'),
                 _ => ('<', '>'),
             };
             format!("{o}{}{c}", xs.iter().map(show).collect::<Vec<_>>().join(","))
@@ -111,6 +119,7 @@ fn parse_v(s: &str) -> Option<V> {
             b'{' => items(b, i, b'}').map(|x| V::Node(Tag::Struct, x)),
             b'[' => items(b, i, b']').map(|x| V::Node(Tag::Vec, x)),
             b'<' => items(b, i, b'>').map(|x| V::Node(Tag::KVec, x)),
+            b'(' => items(b, i, b')').map(|x| V::Node(Tag::Atom, x)),
             b'~' => {
                 *i += 1;
                 Some(V::Node(Tag::Opt, vec![]))
@@ -176,8 +185,17 @@ impl Conv for Leaf {
         V::Node(Tag::Struct, vec![self.v.to_v(), self.w.to_v()])
     }
     fn from_v(v: &V) -> Option<Self> {
-        let f = fields(v, Tag::Struct, Some(2))?;
+        let f = fields(v, Tag::Struct, Some(2)).or_else(|| fields(v, Tag::Atom, Some(2)))?;
         Some(Leaf { v: u32::from_v(&f[0])?, w: u32::from_v(&f[1])? })
+    }
+}
+impl Conv for Box<Leaf> {
+    fn to_v(&self) -> V {
+        V::Node(Tag::Atom, vec![self.v.to_v(), self.w.to_v()])
+    }
+    fn from_v(v: &V) -> Option<Self> {
+        let f = fields(v, Tag::Atom, Some(2))?;
+        Some(Box::new(Leaf { v: u32::from_v(&f[0])?, w: u32::from_v(&f[1])? }))
     }
 }
 impl Conv for Row {
@@ -220,28 +238,41 @@ impl Conv for Vec<Row> {
 }
 impl Conv for Mid {
     fn to_v(&self) -> V {
-        V::Node(Tag::Struct, vec![self.x.to_v(), self.inner.to_v(), self.rows.to_v()])
+        V::Node(Tag::Struct, vec![self.x.to_v(), self.inner.to_v(), self.rows.to_v(), self.opt.to_v()])
     }
     fn from_v(v: &V) -> Option<Self> {
-        let f = fields(v, Tag::Struct, Some(3))?;
-        Some(Mid { x: u32::from_v(&f[0])?, inner: Leaf::from_v(&f[1])?, rows: Vec::<Row>::from_v(&f[2])? })
+        let f = fields(v, Tag::Struct, Some(4))?;
+        Some(Mid {
+            x: u32::from_v(&f[0])?,
+            inner: Leaf::from_v(&f[1])?,
+            rows: Vec::<Row>::from_v(&f[2])?,
+            opt: Option::<Leaf>::from_v(&f[3])?,
+        })
     }
 }
 impl Conv for Root {
     fn to_v(&self) -> V {
         V::Node(
             Tag::Struct,
-            vec![self.a.to_v(), self.mid.to_v(), self.opt.to_v(), self.list.to_v(), self.rows.to_v()],
+            vec![
+                self.a.to_v(),
+                self.mid.to_v(),
+                self.opt.to_v(),
+                self.list.to_v(),
+                self.rows.to_v(),
+                self.boxed.to_v(),
+            ],
         )
     }
     fn from_v(v: &V) -> Option<Self> {
-        let f = fields(v, Tag::Struct, Some(5))?;
+        let f = fields(v, Tag::Struct, Some(6))?;
         Some(Root {
             a: u32::from_v(&f[0])?,
             mid: Mid::from_v(&f[1])?,
             opt: Option::<Leaf>::from_v(&f[2])?,
             list: Vec::<Leaf>::from_v(&f[3])?,
             rows: Vec::<Row>::from_v(&f[4])?,
+            boxed: Box::<Leaf>::from_v(&f[5])?,
         })
     }
 }
